@@ -357,7 +357,8 @@ def oracle(c, r=None):
         want = int(100 / alpha) if c["n"] is None else c["n"]
         if r["requested"] != [want] or len(smp) != want or r["n_attr"] != want:
             return ({"class": cls, "clause": "sample-size"},
-                    "no sample supplied, alpha=%r: drew %r points (n attribute %r), expected int(100/alpha)=%d" % (alpha, r["requested"], r["n_attr"], want))
+                    "no sample supplied, alpha=%r: draw_sample was asked for %r points, the contour's sample has %d rows (n attribute %r), expected int(100/alpha)=%d" % (
+                        alpha, r["requested"], len(smp), r["n_attr"], want))
     else:
         if smp.shape != np.asarray(c["sample"]).shape or not np.array_equal(smp, np.asarray(c["sample"], dtype=float)):
             return ({"class": cls, "clause": "sample-size"}, "the supplied sample is not the one stored on the contour")
